@@ -8,6 +8,7 @@ import (
 	"go/scanner"
 	"go/token"
 	"os"
+	"runtime"
 	"os/exec"
 	"path/filepath"
 	"strconv"
@@ -326,6 +327,20 @@ func mutate(r *gen.Rand, seeds []string, other []string) string {
 	return string(b)
 }
 
+// machineOverloaded: the 1-minute load average exceeds the number of CPUs
+func machineOverloaded() bool {
+	b, err := os.ReadFile("/proc/loadavg")
+	if err != nil {
+		return false
+	}
+	f := strings.Fields(string(b))
+	if len(f) == 0 {
+		return false
+	}
+	l, err := strconv.ParseFloat(f[0], 64)
+	return err == nil && l > float64(runtime.NumCPU())
+}
+
 func genFuzzCase(r *gen.Rand, id int, corpus fuzzCorpus) fuzzCase {
 	c := fuzzCase{ID: id, Kind: "transform"}
 	loaders := []string{"js", "js", "jsx", "ts", "tsx", "css", "css", "local-css", "json"}
@@ -510,7 +525,12 @@ func runFuzzBatch(cases []fuzzCase, workdir string, rep *Report) {
 			case "hang":
 				rep.violate("c16/hang"+sig, fmt.Sprintf("no result (12 s of CPU time, or 60 s of wall clock) for an input of %d bytes (%s loader, %s)", len(c.Input)*3/4, c.Loader, c.Opt), c)
 			default:
-				if r.Millis > 5000 {
+				if r.Millis > 5000 && r.Millis <= 10000 && machineOverloaded() {
+					// between one and two times the limit on a machine whose run queue is longer than its CPU count: CPU time
+					// itself is inflated (shared caches, SMT siblings); no verdict (a replay on a quieter machine decides)
+					rep.stat("slow-under-overload-no-verdict")
+					rep.Inconclusive++
+				} else if r.Millis > 5000 {
 					rep.violate("c16/slow"+sig, fmt.Sprintf("%d ms (the smaller of wall clock and CPU time) for an input of %d bytes (%s loader, %s)", r.Millis, len(c.Input)*3/4, c.Loader, c.Opt), c)
 				}
 			}
